@@ -34,6 +34,7 @@ type Regime struct {
 	LockupDepth           [4]uint64
 	TrimDepths            map[uint8]uint64
 	BlocksPerMonth        uint64
+	LockupPrecompileStart uint64
 }
 
 func DefaultRegime() Regime {
@@ -42,7 +43,7 @@ func DefaultRegime() Regime {
 		MinerDifficultyWindow: params.MinerDifficultyWindow,
 		LockupDepth:    [4]uint64{3, 5, 7, 9},
 		TrimDepths:     map[uint8]uint64{0: 2, 1: 3, 2: 4, 3: 5, 4: 6, 5: 7},
-		BlocksPerMonth: params.BlocksPerMonth,
+		BlocksPerMonth: 3, LockupPrecompileStart: 0,
 	}
 }
 
@@ -52,6 +53,7 @@ func (r Regime) Apply() (restore func()) {
 		ConversionLockPeriod: params.ConversionLockPeriod, CoinbaseEpochBlocks: params.CoinbaseEpochBlocks,
 		MinerDifficultyWindow: params.MinerDifficultyWindow,
 		LockupDepth: params.LockupByteToBlockDepth, TrimDepths: types.TrimDepths, BlocksPerMonth: params.BlocksPerMonth,
+		LockupPrecompileStart: params.CoinbaseLockupPrecompileKickInHeight,
 	}
 	set := func(x Regime) {
 		params.TimeToStartTx = x.TimeToStartTx
@@ -62,6 +64,7 @@ func (r Regime) Apply() (restore func()) {
 		params.LockupByteToBlockDepth = x.LockupDepth
 		types.TrimDepths = x.TrimDepths
 		params.BlocksPerMonth = x.BlocksPerMonth
+		params.CoinbaseLockupPrecompileKickInHeight = x.LockupPrecompileStart
 	}
 	set(r)
 	return func() { set(old) }
